@@ -7,7 +7,8 @@ from contracts.histories import ApiHistories
 from contracts.reader import CONTRACTS as _R
 from contracts.alignment import CONTRACTS as _A
 from contracts.concat import ConcatHistories
-CONTRACTS = list(_H) + list(_T) + [c for c in _R if c.__name__ != 'SingleDeletionSweep'] + list(_A) + [RemoveRecursively, RemoveDataFromGroups, RemoveNoneReferents, CloseContract, ApiHistories, ConcatHistories]
+from contracts.writer import StoredEditsNative
+CONTRACTS = list(_H) + list(_T) + [c for c in _R if c.__name__ != 'SingleDeletionSweep'] + list(_A) + [RemoveRecursively, RemoveDataFromGroups, RemoveNoneReferents, CloseContract, ApiHistories, ConcatHistories, StoredEditsNative]
 
 MANIFEST = {
     "category": "other",
